@@ -120,6 +120,12 @@ def run(ctx):
             failed = isinstance(res, dict) and "err" in res
             if not failed:
                 nontriv -= 1       # the step had nothing to do at the obstacle (already exported): no failure to recover from
+                earlier = set()
+                for k0, t0 in seq[:pos]:
+                    earlier |= set([t0] if k0 == "export" else uni.reach(types, t0))
+                vloc = loc_of(types, victim, base)
+                if res == "ok" and victim not in earlier and vloc not in afiles:
+                    problems.append(f"the export returned Ok although {vloc} (which it had to write, and this process had not written before) could not be written")
             if failed and step["k"] == "export" and touched:
                 problems.append(f"failed export touched {sorted(touched)}")
             if touched - allowed:
